@@ -5,15 +5,23 @@ From Coq Require Import ZArith Bool List Lia.
 Import ListNotations.
 Local Open Scope Z_scope.
 
-(* element categories of harness/kit.h.  NTM: nothrow move; SMH: nothrow move, self-move-assign empties;
-   THM: move constructor / move assignment may throw; CPY: "moving" copies and may throw. *)
+(* element categories (harness: c10::LE<C> over harness/kit.h elements) as momo sees them with the default
+   MOMO_IS_NOTHROW_RELOCATABLE_APPENDIX of UserSettings.h:43-54 ("we can use the move constructor even if it is
+   not marked as noexcept": every type that HAS a move constructor is nothrow-relocatable, relocation runs in
+   noexcept functions):
+     NTM  nothrow move constructor and move assignment
+     SMH  as NTM; self-move-assignment empties the object
+     THM  has a move constructor that is not declared noexcept (assumed not to throw while relocating, see
+          assumptions); its move ASSIGNMENT and its copy operations may throw
+     CPY  copy-only: no move constructor, "moving" selects the copy operations, which may throw *)
 Inductive cat := NTM | SMH | THM | CPY.
 
-(* ObjectRelocator::isNothrowRelocatable (ObjectManager.h:89) for the kit categories *)
-Definition nothrow_reloc (c : cat) : bool := match c with NTM | SMH => true | THM | CPY => false end.
+(* ObjectRelocator::isNothrowRelocatable (ObjectManager.h:89-92) *)
+Definition nothrow_reloc (c : cat) : bool := match c with NTM | SMH | THM => true | CPY => false end.
 (* std::is_nothrow_move_assignable *)
 Definition nothrow_massign (c : cat) : bool := match c with NTM | SMH => true | THM | CPY => false end.
-(* ObjectManager::isNothrowAnywayAssignable = nothrow move-assignable || nothrow swappable || nothrow relocatable *)
+(* ObjectManager::isNothrowAnywayAssignable = nothrow move-assignable || nothrow swappable || nothrow relocatable
+   (std::swap of THM / CPY objects is not noexcept) *)
 Definition nothrow_anyway (c : cat) : bool := nothrow_massign c || nothrow_reloc c.
 
 Notation item := Z (only parsing).
@@ -56,16 +64,13 @@ Definition fail_alloc (w : world) : world := W (sf w) (snd (pop (sa w))) (sc w) 
 (* ::new(dst) Object(std::move(src)) -- returns (new object, src afterwards) *)
 Definition move_ctor (c : cat) (w : world) (v : Z) : world * option (Z * Z) :=
   match c with
-  | NTM | SMH => (emit w (EMove v), Some (v, moved))
-  | THM => match step_copy w with
-           | None => (fail_copy w, None)
-           | Some w1 => (emit w1 (EMove v), Some (v, moved)) end
+  | NTM | SMH | THM => (emit w (EMove v), Some (v, moved))
   | CPY => match step_copy w with
            | None => (fail_copy w, None)
            | Some w1 => (emit w1 (ECopy v), Some (v, v)) end
   end.
 
-(* ::new(dst) Object(src) *)
+(* ::new(dst) Object(src): the copy constructor of every category may throw *)
 Definition copy_ctor (c : cat) (w : world) (v : Z) : world * option Z :=
   match step_copy w with
   | None => (fail_copy w, None)
@@ -101,15 +106,35 @@ Definition relocate (c : cat) (w : world) (v : Z) : world * option Z :=
   | (w1, Some (n, s)) => (dtor w1 s, Some n)
   end.
 
-(* ObjectManager::Replace = AssignAnyway(src,dst); Destroy(src)  (ObjectManager.h:335-340; for the kit
-   categories every pvAssignAnyway overload that is selected is `dstObject = std::move(srcObject)`).
-   Some d = new contents of dst (src destroyed); None = threw (src and dst untouched: the kit's assignment
-   throws before it modifies anything). *)
+(* ObjectManager::Replace = AssignAnyway(src, dst); Destroy(src)  (ObjectManager.h:328-340, 417-451).
+   pvAssignAnyway overloads:  nothrow move-assignable -> dst = std::move(src);
+   else nothrow relocatable (THM) -> Relocate(dst, buf); Relocate(src, &dst); Relocate(buf, &src);
+   else (CPY) -> dst = std::move(src), i.e. the copy assignment, which may throw.
+   Some d = new contents of dst (src destroyed); None = threw (src and dst untouched). *)
 Definition replace (c : cat) (w : world) (src dst : Z) : world * option Z :=
-  match move_assign c w src dst with
-  | (w1, None) => (w1, None)
-  | (w1, Some (d, s)) => (dtor w1 s, Some d)
-  end.
+  if nothrow_massign c then
+    match move_assign c w src dst with
+    | (w1, None) => (w1, None)
+    | (w1, Some (d, s)) => (dtor w1 s, Some d)
+    end
+  else if nothrow_reloc c then
+    match relocate c w dst with
+    | (w1, None) => (w1, None)
+    | (w1, Some buf) =>
+      match relocate c w1 src with
+      | (w2, None) => (w2, None)
+      | (w2, Some d) =>
+        match relocate c w2 buf with
+        | (w3, None) => (w3, None)
+        | (w3, Some s) => (dtor w3 s, Some d)
+        end
+      end
+    end
+  else
+    match move_assign c w src dst with
+    | (w1, None) => (w1, None)
+    | (w1, Some (d, s)) => (dtor w1 s, Some d)
+    end.
 
 (* ObjectManager::ReplaceRelocate(src, mid, dstPtr) (ObjectManager.h:342-485): mid is relocated to dstPtr and
    src takes mid's place.  Result Some (ext, mid') ; None = threw with src, mid untouched, dstPtr raw. *)
@@ -117,7 +142,7 @@ Definition replace_relocate (c : cat) (w : world) (src mid : Z) : world * option
   if nothrow_reloc c then
     (* Relocate(mid, dst); Relocate(src, &mid) *)
     match relocate c w mid with
-    | (w1, None) => (w1, None)           (* unreachable for nothrow categories *)
+    | (w1, None) => (w1, None)
     | (w1, Some e) =>
       match relocate c w1 src with
       | (w2, None) => (w2, None)
@@ -125,7 +150,7 @@ Definition replace_relocate (c : cat) (w : world) (src mid : Z) : world * option
       end
     end
   else if nothrow_anyway c then
-    (* Move(mid, dst); Replace(src, mid) -- not selected for any kit category *)
+    (* Move(mid, dst); Replace(src, mid) -- not selected for any of the four categories *)
     match move_ctor c w mid with
     | (w1, None) => (w1, None)
     | (w1, Some (e, mid1)) =>
@@ -173,6 +198,15 @@ Qed.
 Lemma replace_relocate_value c w s m w' e m' : replace_relocate c w s m = (w', Some (e, m')) -> e = m /\ m' = s.
 Proof.
   unfold replace_relocate, relocate, replace, move_ctor, move_assign, copy_ctor.
+  destruct c; simpl; try (intros H; inversion H; auto; fail);
+  repeat (match goal with |- context [step_copy ?x] => destruct (step_copy x); simpl end);
+  intros H; inversion H; auto.
+Qed.
+
+(* Replace: on success dst holds the old src value, for every category and schedule *)
+Lemma replace_value c w s d w' r : replace c w s d = (w', Some r) -> r = s.
+Proof.
+  unfold replace, relocate, move_ctor, move_assign.
   destruct c; simpl; try (intros H; inversion H; auto; fail);
   repeat (match goal with |- context [step_copy ?x] => destruct (step_copy x); simpl end);
   intros H; inversion H; auto.
